@@ -109,18 +109,18 @@ class World:
             return self.defined(u["imp"][0], u["imp"][1], depth + 1)
         return all(ref in SI or self.defined(mi, ref, depth + 1) for ref, _, _, _ in u["ch"])
 
-    def walk(self, mi, name, fn, e=Fr(1), depth=0):
-        """visit every units object in the closure with its accumulated exponent"""
+    def walk(self, mi, name, fn, e=Fr(1), depth=0, idepth=0):
+        """visit every units object in the closure with its accumulated exponent (idepth: number of imports above it)"""
         u = self.get(mi, name)
         if u is None or depth > 50:
             return
-        fn(mi, name, u, e)
+        fn(mi, name, u, e, idepth)
         if "imp" in u:
-            self.walk(u["imp"][0], u["imp"][1], fn, e, depth + 1)
+            self.walk(u["imp"][0], u["imp"][1], fn, e, depth + 1, idepth + 1)
         else:
             for ref, _, ex, _ in u["ch"]:
                 if ref not in SI:
-                    self.walk(mi, ref, fn, e * ex, depth + 1)
+                    self.walk(mi, ref, fn, e * ex, depth + 1, idepth)
 
     def dims(self, mi, name):
         """dimension of a defined units: dict base unit -> exponent (zeros and dimensionless dropped).  An imported base
@@ -166,13 +166,12 @@ class World:
         f = {"imports": False, "import_exp_ne1": False, "bad_prefix": False, "exp_ne1_scaled": False, "exp_ne1": False,
              "scaled_compound_ref": False, "bare_std_scaled": False, "import_visits": 0, "import_of_import": False}
 
-        def fn(mi2, n2, u, e):
+        def fn(mi2, n2, u, e, idepth):
             if "imp" in u:
                 f["imports"] = True
                 f["import_visits"] += 1
-                t = self.get(u["imp"][0], u["imp"][1])
-                if t is not None and "imp" in t:
-                    f["import_of_import"] = True
+                if idepth >= 1:
+                    f["import_of_import"] = True     # an import inside the closure of an imported units
                 if e != 1 and not self.is_base(mi2, n2):
                     f["import_exp_ne1"] = True
             else:
@@ -532,10 +531,10 @@ def oracle_P(ctx, w, il, stats):
                     out.append(("validator status(%s,%s)=%d but Units::compatible=%d" % (names[i], names[j], st, C(i, j)), None))
                 elif st and not close(pow10(-vm), F(i, j)):
                     fid = None
-                    if fa[i]["bare_std_scaled"] or fa[j]["bare_std_scaled"]:
-                        fid = "C08-bare-standard-unit-scale"
-                    elif not inC:
+                    if not inC:
                         fid = "C08-three-formulas-disagree"
+                    elif fa[i]["bare_std_scaled"] or fa[j]["bare_std_scaled"]:
+                        fid = "C08-bare-standard-unit-scale"
                     out.append(("validator multiplier 10^%s for (%s,%s) but Units::scalingFactor=%r" % (-vm, names[i], names[j], F(i, j)), fid))
                 elif st and inC:
                     stats["validator_agree_in_fragment"] += 1
@@ -595,7 +594,7 @@ def run(ctx):
     drv = vf.compile_driver(build, os.path.join(vf.ROOT, "harness/c08_driver.cpp"))
     mdl = vf.ocaml_driver("units")
 
-    nworlds = 1500 if quick else 12000
+    nworlds = 4000 if quick else 30000
     worlds = []
     cdir = os.path.join(vf.ROOT, "corpus", "C08")
     corpus = []
@@ -657,8 +656,12 @@ def run(ctx):
             if not ok:
                 nviol += 1
                 if nviol <= 5:
-                    ctx.violation("C08 correspondence: %s" % "; ".join(bad[:3]), "corr_%d.json" % nviol,
-                                  {"mode": "P", "case": lines[wi], "world": _json(w), "impl": il[wi], "model": ml[wi], "problems": bad[:20]})
+                    stats0 = dict(stats)
+                    law = [what for what, fid in oracle_P(ctx, w, il[wi], stats0) if fid is None]
+                    ctx.violation("C08 correspondence: %s%s" % ("; ".join(bad[:3]), ("; property law broken: " + law[0]) if law else ""),
+                                  "corr_%d.json" % nviol,
+                                  {"mode": "P", "case": lines[wi], "world": _json(w), "impl": il[wi], "model": ml[wi], "problems": bad[:20],
+                                   "property_laws_broken_on_the_implementation": law[:10]})
                 continue
         before = stats["pairs_compatible_distinct"]
         probs = oracle_P(ctx, w, il[wi], stats)
@@ -675,8 +678,8 @@ def run(ctx):
     ctx.log("P: %d worlds, %s" % (len(worlds), stats))
 
     # ---------------- public routes: validator (V) and analyser (A) on sampled pairs
-    nv = 250 if quick else 2500
-    na = 250 if quick else 2500
+    nv = 600 if quick else 5000
+    na = 600 if quick else 5000
     vcases, acases = [], []
     for _ in range(nv):
         w = gen_world(ctx.rng, valid_only=ctx.rng.random() < 0.7)
@@ -712,7 +715,15 @@ def run(ctx):
     astats = {"units_warning": 0, "scaled": 0, "scale_compared": 0, "skipped_invalid": 0}
     for k, (w, a, b) in enumerate(acases):
         evals += 2
-        for prob, fid in check_A(w, a, b, ai[k], am[k], astats):
+        probs = check_A(w, a, b, ai[k], am[k], astats)
+        if any(fid is None for _, fid in probs) and case_classes(w):
+            # inside a known-finding class the implementation may already be repaired
+            for bits in ("10", "01", "11"):
+                alt = check_A(w, a, b, ai[k], model_alt(alines[k], bits), dict(astats))
+                if all(fid is not None for _, fid in alt):
+                    probs = alt
+                    break
+        for prob, fid in probs:
             if fid and ctx.known_finding(fid, prob):
                 continue
             nviol += 1
@@ -804,10 +815,10 @@ def check_A(w, a, b, il, ml, astats):
     if (warn == 0) != units_equiv:
         inC = not any(f["exp_ne1"] or f["scaled_compound_ref"] for f in fa)
         fid = None
-        if any(f["bare_std_scaled"] for f in fa):
-            fid = "C08-bare-standard-unit-scale"
-        elif not inC:
+        if not inC:
             fid = "C08-three-formulas-disagree"
+        elif any(f["bare_std_scaled"] for f in fa):
+            fid = "C08-bare-standard-unit-scale"
         out.append(("analyser says units of 'x = y' are %sequivalent, Units::equivalent says %s (units %s, %s)" %
                     ("" if warn == 0 else "not ", units_equiv, a, b), fid))
     # scale put in front of the connected variable = Units::scalingFactor(n2, n1)
